@@ -3,11 +3,11 @@
 _H = ["internal/peer/c18_peers_test.go", "internal/peer/c18_codec_test.go"]
 # what C18 leaves open: the boundary at the expiry instant, and when change callbacks fire
 _VARIANTS = [("closed+callbacks", "c"), ("closed", "n"), ("open+callbacks", "oc"), ("open", "on")]
-# ... and, where publishes may fail, whether the implementation stretches its refresh period while they do
-_BACKOFF = [("closed+backoff", "nb"), ("open+backoff", "onb")]
+# ... and the publish schedule beyond 'often enough': extra register publishes (eagerly at Start; for one node also on every handled message), backoff while publishes fail
+_BACKOFF = [("closed+loose", "x"), ("open+loose", "ox")]
 
 
-def _walk(name, quick, thorough, budget, tiers=("quick", "thorough"), backoff=False):
+def _walk(name, quick, thorough, budget, tiers=("quick", "thorough"), backoff=True):
     return dict(kind="walk", name=name, module="Peers", pkg="internal/peer", test="TestVerifC18Peers", harness=_H, tiers=tiers,
                 alternatives=[dict(name=n, cfg={"quick": f"MC_Peers_{quick}_{s}.cfg", "thorough": f"MC_Peers_{thorough}_{s}.cfg"}) for n, s in _VARIANTS + (_BACKOFF if backoff else [])],
                 budget=budget, maxwalk=200, tlc_timeout=900)
@@ -51,9 +51,10 @@ PROP = dict(
         _walk("pairfail", "pairfail", "pairfail", {"thorough": 60}, tiers=("thorough",), backoff=True),
         dict(kind="tlc", name="timed-solo", module="Peers", cfg="MC_Peers_solo_timed.cfg", workers=4, tiers=("thorough",)),
         dict(kind="tlc", name="timed-pairfail", module="Peers", cfg="MC_Peers_pairfail_mc_timed.cfg", workers=8, tiers=("thorough",)),
-        dict(kind="tlc", name="timed-pairfail-backoff", module="Peers", cfg="MC_Peers_pairfail_mc_backoff_timed.cfg", workers=8, tiers=("thorough",)),
+        dict(kind="tlc", name="timed-pairfail-loose", module="Peers", cfg="MC_Peers_pairfail_mc_loose_timed.cfg", workers=8, tiers=("thorough",)),
         _walk("restart", "restart", "restart", {"thorough": 60}, tiers=("thorough",)),
         _walk("trio", "trio", "trio", {"thorough": 100}, tiers=("thorough",)),
+        dict(kind="tlc", name="timed-pair-loose", module="Peers", cfg="MC_Peers_pair_q_loose_timed.cfg", workers=8, tiers=("thorough",)),
         dict(kind="tlc", name="timed-restart", module="Peers", cfg="MC_Peers_restart_mc_timed.cfg", workers=8, tiers=("thorough",)),
         dict(kind="tlc", name="timed-trio", module="Peers", cfg="MC_Peers_trio_mc_timed.cfg", workers=8, tiers=("thorough",)),
         dict(kind="tlc", name="live-pair", module="Peers", cfg="MC_Peers_pair_mc_live.cfg", workers=8, tiers=("thorough",)),
